@@ -134,12 +134,14 @@ std::string make_record(int id, int n, int cls)
     }
     if (cls == 4) {
         // binary-looking text: carriage returns, CR LF pairs, tabs, other control characters, DEL
-        static const char *const bits[] = { "\r", "\r\n", "\t", "\x01", "\x1b[0m", "\x7f", "\x1f", "\n", "\r\r", "\x0c" };
+        // ... and NUL characters (a dumped binary frame)
+        static const std::string bits[] = { "\r", "\r\n", "\t", "\x01", "\x1b[0m", "\x7f", "\x1f", "\n", "\r\r", "\x0c",
+                                            std::string(1, '\0'), std::string("\0\0", 2) };
         uint64_t x = 0xA0761D6478BD642Full * (uint64_t)(id + 3);
         while ((int)s.size() < n) {
             x = x * 6364136223846793005ull + 1442695040888963407ull;
             unsigned k = (unsigned)(x >> 35);
-            std::string piece = (k % 3 == 0) ? std::string(bits[(k / 3) % 10]) : std::string(1, char(33 + (k / 3) % 94));
+            std::string piece = (k % 3 == 0) ? bits[(k / 3) % 12] : std::string(1, char(33 + (k / 3) % 94));
             if ((int)(s.size() + piece.size()) > n)
                 piece = std::string(1, char('a' + k % 26));
             s += piece;
@@ -1110,6 +1112,11 @@ struct Engine
             logdir::read_file(active_abs, A);
             have += A;
             reached = have.size() >= rec_stream(pending).size();
+        }
+        if (!reached && device_open() && accepted > 0 && !fault_mode) {
+            fail("record-truncated",
+                 "record r" + std::to_string(r.id) + ": only " + std::to_string(accepted) + " of its " + std::to_string(r.bytes.size() + 1)
+                         + " bytes were handed to the file");
         }
         if (!reached) {
             // refused: it never reached the file. After an injected failure that is a legitimate
